@@ -103,10 +103,14 @@ def __setitem__(self, indx, arg):
     try:
         (masked, size_zero,
          shape_before, shape_after) = self._prep_scalar_index(indx)
-        if (self._shape_ and not (masked or size_zero)
-                         and 1 in shape_before + shape_after):
-            raise IndexError('None in the index of an object with a shape')
-                # the general path below places the new axes where they belong
+        items = indx if isinstance(indx, (tuple, list)) else (indx,)
+        used = len([k for k in items if k is not None and k is not Ellipsis])
+        if self._shape_ and (used > len(self._shape_) or
+                             (1 in shape_before + shape_after
+                              and not (masked or size_zero))):
+            raise IndexError('not an index of the whole object')
+                # the general path below validates the number of indices and
+                # places the axes that None adds where they belong
     except IndexError:
         if self._shape_ == ():
             raise
